@@ -227,6 +227,10 @@ func (state inSession) handleResendRequest(session *session, msg *Message) (next
 
 func (state inSession) resendMessages(session *session, beginSeqNo, endSeqNo int, inReplyTo Message) error {
 	if session.DisableMessagePersist {
+		if beginSeqNo > endSeqNo {
+			// Nothing in the requested range has been sent.
+			return nil
+		}
 		return state.generateSequenceReset(session, beginSeqNo, endSeqNo+1, inReplyTo)
 	}
 
